@@ -52,6 +52,8 @@ class CohGen:
             global_serialize=False,                     # D20
             ns_var_default=False,                       # D7 (pybind)
             nonconst_print=False,                       # D36 (pybind)
+            templated_class_enum_use=(target == 'pybind'),
+            unsigned_char_params=(target == 'pybind'),  # D41 (matlab): guard isa(x,'unsigned char') can never hold
             class_enum_default=(target == 'matlab'),    # D40 (pybind): default value of the class's own enum type
             typedefs=True,
         )
@@ -112,6 +114,8 @@ class CohGen:
                 ok = True
             if e.get('templated') and not (self.cur_class == e['cls'] and e['ns'] == self.cur_ns):
                 ok = False     # Cls<T>::E can only be spelled as This::E inside its own class
+            if e.get('templated') and not self.f['templated_class_enum_use']:
+                ok = False     # D28 (matlab): This::E of a templated class gets the C++ spelling as MATLAB class name
             if ok:
                 out.append(e)
         return out
@@ -127,7 +131,7 @@ class CohGen:
         r = self.r
         x = r.random()
         if x < 0.45:
-            b = r.choice(SCALARS)
+            b = r.choice(SCALARS if self.f['unsigned_char_params'] else [s_ for s_ in SCALARS if s_ != 'unsigned char'])
             if r.random() < 0.15 and self.f['refs']:
                 return S.T(b, (), (), True, '&')
             return S.T(b, (), (), r.random() < 0.1)
@@ -168,7 +172,7 @@ class CohGen:
                 if m == 'shared':
                     return S.T(t.name, t.ns, t.args, False, '*')
                 return S.T(t.name, t.ns, t.args, False, '@')
-        return S.T(r.choice(SCALARS))
+        return S.T(r.choice(SCALARS if self.f['unsigned_char_params'] else [s_ for s_ in SCALARS if s_ != 'unsigned char']))
 
     def ret_type(self, allow_pair=True, allow_void=True):
         r = self.r
